@@ -676,6 +676,7 @@ def call_lua_sandbox(
 
     # Call the Lua function in the given module
     stack_len = len(ctx.expand_stack)
+    env_stack_len = len(ctx.lua_env_stack)
     ctx.expand_stack.append("Lua:{}:{}()".format(modname, modfn))
     if TYPE_CHECKING:
         assert ctx.lua_invoke is not None
@@ -708,7 +709,10 @@ def call_lua_sandbox(
             ctx.expand_stack.pop()
     # print("Lua call {} returned: ok={!r} text={!r}"
     #       .format(invoke_args, ok, text))
-    if len(ctx.lua_env_stack) > 0:
+    # Remove the environment this invocation pushed - and only that: an
+    # invocation that was aborted before it pushed one (e.g. by the time
+    # limit of the enclosing invocation) must not pop its caller's
+    while len(ctx.lua_env_stack) > env_stack_len:
         ctx.lua_env_stack.pop()
     if len(ctx.lua_frame_stack) > 0:
         ctx.lua_frame_stack.pop()
@@ -757,6 +761,11 @@ def call_lua_sandbox(
     msg = "Lua execution error"
     if "Lua timeout error" in text:
         msg = "Lua timeout error"
+        if env_stack_len > 0:
+            # A nested invocation runs under the time limit of the outermost
+            # one.  That limit has expired: abort the enclosing Lua code too,
+            # or a module that keeps calling frame:preprocess() never ends
+            raise lupa.LuaError("Lua timeout error")
     return '<strong class="error">{} in {} function {}</strong>'.format(
         msg, html.escape(modname), html.escape(modfn)
     )
